@@ -117,7 +117,7 @@ func (g *vhGen) putSymbolOfLength(c *vhCode, lo, hi, length int) int {
 }
 
 // genBlock appends one block; returns false when the shape is not available.
-func (g *vhGen) genBlock(final int, maxTokens int, allowDyn bool) {
+func (g *vhGen) genBlock(final int, maxTokens int, allowDyn bool, fill int) {
 	kind := vInt("blockkind")
 	lo := 0
 	hi := 1
@@ -160,6 +160,18 @@ func (g *vhGen) genBlock(final int, maxTokens int, allowDyn bool) {
 			g.putBit(int(vhDynStream[p>>3]>>uint(p&7)) & 1)
 		}
 		lc, dc = vhMakeCode(ll), vhMakeCode(dl)
+	}
+	if fill > 0 && kind == 1 {
+		// a run of 0..fill nine-bit literals slides the following block header over every bit alignment
+		f := vInt("fill")
+		vAssume(vAnd(f >= 0, f <= fill))
+		f = vConc(f)
+		for i := 0; i < f; i++ {
+			// concrete values: the filler's only role is to shift the alignment
+			s := 200 + i
+			g.putCode(lc.code[s], lc.lengths[s])
+			g.out = append(g.out, byte(s))
+		}
 	}
 	nt := vInt("ntokens")
 	vAssume(vAnd(nt >= 0, nt <= maxTokens))
